@@ -1,0 +1,6 @@
+//go:build !verif
+
+package mbapp
+
+// firstCounter is the value the message counter of a new swarm starts from.
+func firstCounter() uint32 { return 0 }
